@@ -10,6 +10,8 @@ use std::time::Duration;
 
 const DEFAULT_TIMEOUT: Duration = Duration::from_secs(5);
 const DEFAULT_BLOCK_SIZE: usize = 512;
+const MIN_BLOCK_SIZE: usize = 8;
+const MAX_BLOCK_SIZE: usize = 65464;
 const DEFAULT_WINDOW_SIZE: u16 = 1;
 
 /// Server `struct` is used for handling incoming TFTP requests.
@@ -328,7 +330,12 @@ fn parse_options(
         } = option;
 
         match option_type {
-            OptionType::BlockSize => worker_options.block_size = *value,
+            OptionType::BlockSize => {
+                if *value < MIN_BLOCK_SIZE || *value > MAX_BLOCK_SIZE {
+                    return Err("Invalid blksize value");
+                }
+                worker_options.block_size = *value;
+            }
             OptionType::TransferSize => match request_type {
                 RequestType::Read(size) => {
                     *value = size as usize;
